@@ -222,6 +222,8 @@ class GizaCategory(Generic[_I]):
     nodes: Dict[str, GizaFile[_I]] = field(default_factory=dict)
     reified_nodes: Optional[Dict[str, GizaFile[_I]]] = None
     dg: "networkx.DiGraph[str]" = field(default_factory=networkx.DiGraph)
+    # The pages each file generated the last time it was processed, by file ID
+    outputs: Dict[str, Set[n.FileId]] = field(default_factory=dict)
 
     def parse(
         self, path: n.FileId, text: Optional[str] = None
@@ -246,7 +248,12 @@ class GizaCategory(Generic[_I]):
     ) -> List[Page]:
         pages = self._generate_pages(source_path, page_factory, giza_file)
         giza_file.pages = pages
+        self.record_outputs(source_path, pages)
         return pages
+
+    def record_outputs(self, source_path: n.FileId, pages: Iterable[Page]) -> None:
+        """Remember which pages a file generates."""
+        self.outputs[source_path.name] = {page.fake_full_fileid() for page in pages}
 
     def add(
         self,
@@ -417,6 +424,7 @@ class GizaCategory(Generic[_I]):
     def __delitem__(self, file_id: str) -> None:
         """Remove a file and any nodes it may have created."""
         del self.nodes[file_id]
+        self.outputs.pop(file_id, None)
 
         # Files which neither inherit nor are inherited from have no graph node
         try:
